@@ -47,6 +47,7 @@ def setup(ctx):
     ctx.require("monitor", "old_version_attempts_server", 16)
     ctx.require("monitor", "controls_ok", 6)
     ctx.require("monitor", "successive_contexts", 12)
+    ctx.require("monitor", "contexts_built_under_operator_environment", 6)
     ctx.require("monitor", "wired_through_environment", 5)
     ctx.require("monitor", "new_version_ok", 8)
     ctx.require("monitor", "old_version_attempts_client", 3)
@@ -734,8 +735,26 @@ def run(ctx):
             finally:
                 lt.stop()
 
+        # (every other successor is built while the process environment carries what an operator's shell may carry: an
+        # OpenSSL configuration file that says nothing about protocol versions, a CA bundle, a key-log file)
+        ossl_cnf = os.path.join(base, "openssl.cnf")
+        with open(ossl_cnf, "w") as f:
+            f.write("openssl_conf = openssl_init\n\n[openssl_init]\nproviders = provider_sect\n\n[provider_sect]\ndefault = default_sect\n\n[default_sect]\nactivate = 1\n")
+        env_sets = [{}, {"OPENSSL_CONF": ossl_cnf}, {}, {"SSL_CERT_FILE": ident.certfile, "SSLKEYLOGFILE": os.path.join(base, "keys.log"), "OPENSSL_CONF": ossl_cnf}]
         for i in range(12 if ctx.quick() else 48):
-            one_successor(i)
+            extra_env = env_sets[i % 4]
+            old_env = {k: os.environ.get(k) for k in extra_env}
+            os.environ.update(extra_env)
+            try:
+                one_successor(i)
+            finally:
+                for k, v in old_env.items():
+                    if v is None:
+                        os.environ.pop(k, None)
+                    else:
+                        os.environ[k] = v
+            if extra_env:
+                ctx.count("monitor", "contexts_built_under_operator_environment")
             gc.collect()
             ctx.count("monitor", "successive_contexts")
         with live.ProtocolServer(lambda: GeminiServerProtocol(handler), backend="stdlib", server_ident=ident) as ps2:
